@@ -25,11 +25,12 @@ LayoutDiscipline == \A r \in Regions : LayoutOk(r)
 
 \* ---- 2. builder inputs
 Kinds == {"cert_ca", "cert_ee", "crl", "mft", "roa", "aspa", "csr", "idcert", "sigmsg"}
-SerialClasses == {"one", "highbit", "twenty"}             \* 1 octet; 2 octets with the top bit set; full 20 octets
+SerialClasses == {"zero", "one", "highbit", "twenty"}     \* the number 0; 1 octet; 2 octets with the top bit set; full 20 octets
 TimeClasses == {"utc", "gen", "cross1950", "cross2050", "far"}    \* window inside 1950-2049, after 2050, across either boundary, years 1 - 9999
 ResShapes == {"one", "many", "ends", "inherit"}
 UriForms == {"dir", "nodir"}                              \* repository URI with / without trailing slash
 Items == 1..4
+Feeds == {"exact", "lazy"}                                \* the list handed to the builder: a slice / an iterator that does not know its length
 \* concrete values of the classes: the replayer builds with exactly these, and the expected DER forms
 \* (time tags, minimal INTEGER) are computed here from X509Time's encoder model
 Window(c) == CASE c = "utc" -> << <<2024, 1, 1, 0, 0, 0>>, <<2025, 12, 31, 23, 59, 59>> >>
@@ -37,14 +38,15 @@ Window(c) == CASE c = "utc" -> << <<2024, 1, 1, 0, 0, 0>>, <<2025, 12, 31, 23, 5
                [] c = "cross1950" -> << <<1949, 12, 31, 23, 59, 59>>, <<1950, 1, 1, 0, 0, 0>> >>
                [] c = "cross2050" -> << <<2049, 12, 31, 23, 59, 59>>, <<2050, 1, 1, 0, 0, 0>> >>
                [] OTHER -> << <<1, 1, 1, 0, 0, 0>>, <<9999, 12, 31, 23, 59, 59>> >>
-SerialBytes(c) == CASE c = "one" -> <<7>>
+SerialBytes(c) == CASE c = "zero" -> <<0>>
+                    [] c = "one" -> <<7>>
                     [] c = "highbit" -> <<128, 255>>
                     [] OTHER -> <<127>> \o [i \in 1..18 |-> 165] \o <<3>>
 TimesRoundTrip == \A c \in TimeClasses : \A i \in 1..2 : Dec(Tag(Window(c)[i]), Enc(Window(c)[i])) = Window(c)[i]
 SerialsMinimal == \A c \in SerialClasses : LET d == MinimalDer(SerialBytes(c)) IN
                      /\ d[1] < 128 /\ StripZ(d) = StripZ(SerialBytes(c)) /\ (Len(d) > 1 /\ d[1] = 0 => d[2] >= 128)
-VARIABLES kind, serial, times, res, uriform, items
-vars == <<kind, serial, times, res, uriform, items>>
+VARIABLES kind, serial, times, res, uriform, items, feed
+vars == <<kind, serial, times, res, uriform, items, feed>>
 \* fields that do not exist for a kind are pinned, so each distinct input appears once
 Relevant ==
     /\ (kind \in {"csr", "idcert", "sigmsg"} => (serial = "one" /\ res = "one" /\ items = <<>>))
@@ -52,14 +54,15 @@ Relevant ==
     /\ (kind \in {"csr"} => times = "utc")
     /\ (kind \in {"crl", "mft", "roa", "aspa"} => res = "one")
     /\ (kind \in {"cert_ca", "cert_ee"} => items = <<>>)
+    /\ (kind # "mft" => feed = "exact")                    \* only ManifestContent::new takes an iterator
 Init == /\ kind \in Kinds /\ serial \in SerialClasses /\ times \in TimeClasses /\ res \in ResShapes /\ uriform \in UriForms
-        /\ items = <<>>
+        /\ items = <<>> /\ feed \in Feeds
         /\ Relevant
 AddItem == /\ Len(items) < 3
            /\ kind \in {"crl", "mft", "roa", "aspa"}
            \* any insertion order, duplicates included (an ASPA provider set refuses duplicates at construction: distinct there)
            /\ \E x \in Items : (kind = "aspa" => \A i \in 1..Len(items) : items[i] # x) /\ items' = Append(items, x)
-           /\ UNCHANGED <<kind, serial, times, res, uriform>>
+           /\ UNCHANGED <<kind, serial, times, res, uriform, feed>>
 Next == AddItem
 Spec == Init /\ [][Next]_vars
 =============================================================================
